@@ -598,6 +598,11 @@ def _const_bytes(crate, A, cb, depth=0):
     (`const ZERO: Self = Self::POSITIVE_ZERO`)"""
     if cb is None or depth > 4:
         return None
+    # what the compiler evaluated the constant to, when the exporter could read it (ten raw bytes): independent of how
+    # the initialiser is spelled (`Self(ZERO_BITS)`, `Self([0; F80_BYTES])`, a chain of named constants)
+    for k_ in getattr(crate, "consts", []):
+        if k_.get("key") == cb.key and isinstance(k_.get("bytes"), list) and len(k_["bytes"]) >= 10 and not any(k_["bytes"][10:]):
+            return list(k_["bytes"][:10])   # (the struct is padded to its alignment; the value is the first ten bytes)
     I = A(cb)
     for st in I.final_states:
         ret = util.ret_term(st)
